@@ -331,5 +331,5 @@ func checkSVD(c svdCase) *vk.Failure {
 }
 
 func TestSVD(t *testing.T) {
-	vk.Run(t, "svd", vk.Opts{Quick: 1000, Thorough: 30000}, drawSVD, checkSVD)
+	vk.Run(t, "svd", vk.Opts{Quick: 3000, Thorough: 90000}, drawSVD, checkSVD)
 }
